@@ -556,6 +556,7 @@ type creds struct {
 	tokShape               int // rejected tokens: 0 opaque, 1 JWT of a foreign issuer, 2 JWT naming the trusted issuer
 	accept                 int // index into acceptValues
 	sibling                int // index into siblingCookies: another cookie sent along with the session cookie
+	scheme                 int // spelling of the Basic scheme (case-insensitive per RFC 9110): Basic, basic, BASIC
 }
 
 // cookies of other applications travel in the same header; some are not well-formed by the book
@@ -609,7 +610,7 @@ func (c creds) headers() map[string]string {
 var credNames = []string{"none", "valid", "invalid", "malformed"}
 
 func (c creds) String() string {
-	return fmt.Sprintf("basic=%s jwt=%s/%d token=%s/%d/%d sess=%s+%q accept=%q", credNames[c.basic], credNames[c.jwt], c.jwtVia, credNames[c.token], c.tokVia, c.tokShape, credNames[c.sess], siblingCookies[c.sibling], acceptValues[c.accept])
+	return fmt.Sprintf("basic=%s"+[]string{"", "(basic)", "(BASIC)"}[c.scheme]+" jwt=%s/%d token=%s/%d/%d sess=%s+%q accept=%q", credNames[c.basic], credNames[c.jwt], c.jwtVia, credNames[c.token], c.tokVia, c.tokShape, credNames[c.sess], siblingCookies[c.sibling], acceptValues[c.accept])
 }
 
 func (c creds) allHeaders() map[string]string {
@@ -619,9 +620,9 @@ func (c creds) allHeaders() map[string]string {
 	}
 	switch c.basic {
 	case 1:
-		h["Authorization"] = "Basic " + base64.StdEncoding.EncodeToString([]byte("bob:pw"))
+		h["Authorization"] = []string{"Basic", "basic", "BASIC"}[c.scheme] + " " + base64.StdEncoding.EncodeToString([]byte("bob:pw"))
 	case 2:
-		h["Authorization"] = "Basic " + base64.StdEncoding.EncodeToString([]byte("bob:wrong"))
+		h["Authorization"] = []string{"Basic", "basic", "BASIC"}[c.scheme] + " " + base64.StdEncoding.EncodeToString([]byte("bob:wrong"))
 	case 3:
 		h["Authorization"] = "Basic !!!not-base64"
 	}
@@ -953,6 +954,9 @@ func pipeSim(r *simcore.Run) {
 			c.tokShape = s.Draw(3, "token-shape")
 		}
 		c.accept = []int{0, 0, 0, 1, 2, 3, 4, 5}[s.Draw(8, "accept")]
+		if c.basic == 1 || c.basic == 2 {
+			c.scheme = []int{0, 0, 1, 2}[s.Draw(4, "scheme-spelling")]
+		}
 		if c.sess != 0 {
 			c.sibling = []int{0, 0, 1, 2, 3, 4, 5}[s.Draw(7, "sibling-cookie")]
 		}
